@@ -204,7 +204,7 @@ def prepare_examples(ctx, extreme_rain=True):
 
 # batch lines of the shipped examples used for traced runs: (line, date format of the project)
 TRACE_LINES = [
-    ("project=ex1 WeatherFolder=extreme soilId=075 fcode=109_120 plotNr=10001 Altitude=73 Latitude=52.6732 poligonID=29872", "EN"),
+    ("project=ex1 WeatherFolder=extreme soilId=075 fcode=109_120 plotNr=10001 Altitude=73 Latitude=52.6732 poligonID=29872 KcFactorBareSoil=2.0", "EN"),
     ("project=ex3 WeatherFolder=extreme soilId=075 fcode=109_120 plotNr=10001 Altitude=73 Latitude=52.6732 poligonID=29872 ETpot=2", "EN"),
     ("project=zuc WeatherFolder=extreme fcode=109_120 plotNr=10001 soilId=001 Altitude=73 Latitude=52.6732 poligonID=29872 ETpot=4", "DE"),
     ("project=ex1 WeatherFolder=historical soilId=160 fcode=109_120 plotNr=10002 Altitude=73 Latitude=52.6728 poligonID=29873 ETpot=3 AutoIrrigation=0", "EN"),
